@@ -37,7 +37,7 @@ h(ALL_FLOAT_PROPS, "conformance", "conf_float_ops", "quick", 300,
 # C17
 # ---------------------------------------------------------------------------
 HIL = ["core::util::hilbert::hilbert_indices_prequantized", "core::util::hilbert::hilbert_index_from_quantized"]
-for (d, bits, tier, to) in [(1, 4, "quick", 300), (1, 16, "thorough", 600), (2, 2, "quick", 300), (2, 4, "quick", 300),
+for (d, bits, tier, to) in [(2, 1, "quick", 300), (3, 1, "quick", 300), (4, 1, "quick", 300), (5, 1, "quick", 300), (3, 2, "quick", 300), (1, 4, "quick", 300), (1, 16, "thorough", 600), (2, 2, "quick", 300), (2, 4, "quick", 300),
                             (2, 8, "thorough", 900), (2, 10, "thorough", 3000), (3, 3, "quick", 300), (3, 5, "thorough", 900),
                             (4, 2, "quick", 300), (4, 3, "thorough", 900), (5, 2, "quick", 400), (5, 3, "thorough", 900)]:
     h("C17", "c17", f"c17_hilbert_curve_{d}d_b{bits}", tier, to,
